@@ -440,7 +440,8 @@ HARNESSES = [
     H('rhat_c1_n4', h_rhat, dict(c=1, n=4), bounds='1 chain of 4'),
     H('rhat_c2_n4', h_rhat, dict(c=2, n=4), bounds='2 chains of 4'),
     H('rhat_c1_n5', h_rhat, dict(c=1, n=5), bounds='1 chain of 5 (odd: last draw dropped)'),
-    H('rhat_c2_n5', h_rhat, dict(c=2, n=5), bounds='2 chains of 5 (odd: last dropped)', tiers=('thorough',)),
+    H('rhat_c2_n5', h_rhat, dict(c=2, n=5), bounds='2 chains of 5 (odd: last draw of every chain dropped)',
+      path_timeout=900),
     H('rhat_c3_n4', h_rhat, dict(c=3, n=4), bounds='3 chains of 4', tiers=('thorough',)),
     H('ess_formula_c1_n3', h_ess, dict(c=1, n=3, what='formula'), bounds='ESS formula, 1 chain of 3'),
     H('ess_formula_c1_n4', h_ess, dict(c=1, n=4, what='formula'), bounds='ESS formula, 1 chain of 4'),
